@@ -36,9 +36,17 @@ POSITIONS = [
     ("param-in-list", "⟨@f:{}|1;⟩", "a", (1, 2)),
     ("loop-var-in-if", "[({}|1)]", "a", (1, 2)),
     ("var-digraph-mode", "→{}", "a", (1, 2)),
+    # a literal followed - directly or after other elements - by a token that takes its text from the program too (a bare arrow has
+    # an empty name): no text may carry over from one token to the next
+    ("string-then-bare-set", "`{}`→", "a", (1, 2, 3)),
+    ("string-then-bare-get", "`{}`+←", "a", (1, 2)),
+    ("twochar-then-bare-set", "‛{}→", "aa", (2,)),
+    ("cstring-then-bare-set", "«{}«→", "a", (1, 2)),
+    ("var-then-bare-set", "1→{} 2→", "a", (1, 2)),
+    ("string-then-loop", "`{}`2(|1)", "a", (1, 2)),
 ]
 NAME_POSITIONS = {"var-get", "var-set", "loop-var", "fn-name-def", "fn-name-call", "param-name", "param-name-2", "param-number",
-                  "lambda-arity", "var-in-fn", "param-in-list", "loop-var-in-if", "var-digraph-mode"}
+                  "lambda-arity", "var-in-fn", "param-in-list", "loop-var-in-if", "var-digraph-mode", "var-then-bare-set"}
 
 
 def deliver(payload, how):
